@@ -266,6 +266,8 @@ def p_maskselect(ex, path, a, mask):
     """a[mask] for a 1-D boolean mask over the leading axis: order-preserving sub-sequence.  Contract: there is a strictly
     increasing index map sigma: [0,m) -> [0,n) with mask[sigma(k)] and out[k] = a[sigma(k)], and every masked index is hit
     (rho is the inverse on masked indices)."""
+    from .prims import USED
+    USED.add("ndarray[boolean mask] (order-preserving selection)")
     if a.ndim != 1 or mask.ndim != 1:
         out = T(a.axes, a.elem, kind=a.kind)
         out.mask = (a.axes[0], mask)
